@@ -101,49 +101,100 @@
 (define-fun obj_aty ((t cty.Type) (k String)) cty.Type (select (MapC<String~cty.Type>.val (obj_atys t)) k))
 (define-fun obj_opt ((t cty.Type)) (Array String Bool) (MapC<String~Unit>.dom (select F.MapC<String~Unit> (obj_opt_ptr t))))
 
+; Recursive spec predicates are "fuelled" (as in Dafny/Boogie): the definitional axiom only unfolds
+; an application whose fuel argument is a successor, and the recursive occurrences carry one unit
+; less, so quantifier instantiation cannot descend without bound. All fuel levels are synonyms.
+(declare-sort Fuel 0)
+(declare-fun FS (Fuel) Fuel)
+(declare-const FZ Fuel)
+
 ; Structural equality of types (C07): an equivalence relation (M1) with a definitional axiom.
-(declare-fun ty_eq (cty.Type cty.Type) Bool)
-(assert (forall ((a cty.Type)) (! (ty_eq a a) :pattern ((ty_eq a a)))))
-(assert (forall ((a cty.Type) (b cty.Type)) (! (= (ty_eq a b) (ty_eq b a)) :pattern ((ty_eq a b)))))
-(assert (forall ((a cty.Type) (b cty.Type) (c cty.Type)) (! (=> (and (ty_eq a b) (ty_eq b c)) (ty_eq a c)) :pattern ((ty_eq a b) (ty_eq b c)))))
-(define-fun ty_eq_tuple ((a cty.Type) (b cty.Type)) Bool
+(declare-fun ty_eqF (Fuel cty.Type cty.Type) Bool)
+(define-fun ty_eq ((a cty.Type) (b cty.Type)) Bool (ty_eqF (FS (FS FZ)) a b))
+(assert (forall ((f Fuel) (a cty.Type) (b cty.Type)) (! (= (ty_eqF (FS f) a b) (ty_eqF f a b)) :pattern ((ty_eqF (FS f) a b)))))
+(assert (forall ((f Fuel) (a cty.Type)) (! (ty_eqF f a a) :pattern ((ty_eqF f a a)))))
+(assert (forall ((f Fuel) (a cty.Type) (b cty.Type)) (! (= (ty_eqF f a b) (ty_eqF f b a)) :pattern ((ty_eqF f a b)))))
+(assert (forall ((f Fuel) (a cty.Type) (b cty.Type) (c cty.Type)) (! (=> (and (ty_eqF f a b) (ty_eqF f b c)) (ty_eqF f a c)) :pattern ((ty_eqF f a b) (ty_eqF f b c)))))
+(define-fun ty_eq_tuple ((f Fuel) (a cty.Type) (b cty.Type)) Bool
   (and (= (tuple_len a) (tuple_len b))
        (forall ((j Int)) (! (=> (and (<= (tuple_off a) j) (< j (+ (tuple_off a) (tuple_len a))))
-                              (ty_eq (select (tuple_arr a) j) (select (tuple_arr b) (+ (- j (tuple_off a)) (tuple_off b)))))
+                              (ty_eqF f (select (tuple_arr a) j) (select (tuple_arr b) (+ (- j (tuple_off a)) (tuple_off b)))))
                            :pattern ((select (tuple_arr a) j))))))
-(define-fun ty_eq_obj ((a cty.Type) (b cty.Type)) Bool
+(define-fun ty_eq_obj ((f Fuel) (a cty.Type) (b cty.Type)) Bool
   (and (= (obj_dom a) (obj_dom b))
        (forall ((k String)) (! (=> (select (obj_dom a) k)
-                                  (and (ty_eq (obj_aty a k) (obj_aty b k)) (= (select (obj_opt a) k) (select (obj_opt b) k))))
+                                  (and (ty_eqF f (obj_aty a k) (obj_aty b k)) (= (select (obj_opt a) k) (select (obj_opt b) k))))
                            :pattern ((select (obj_dom a) k))))))
-(assert (forall ((a cty.Type) (b cty.Type)) (! (= (ty_eq a b)
+(assert (forall ((f Fuel) (a cty.Type) (b cty.Type)) (! (= (ty_eqF (FS f) a b)
     (or (and (is_nil_ty a) (is_nil_ty b))
         (and (is_prim_ty a) (is_prim_ty b) (= (prim_kind a) (prim_kind b)))
         (and (is_dyn_ty a) (is_dyn_ty b))
-        (and (is_list_ty a) (is_list_ty b) (ty_eq (elem_ty a) (elem_ty b)))
-        (and (is_map_ty a) (is_map_ty b) (ty_eq (elem_ty a) (elem_ty b)))
-        (and (is_set_ty a) (is_set_ty b) (ty_eq (elem_ty a) (elem_ty b)))
-        (and (is_tuple_ty a) (is_tuple_ty b) (ty_eq_tuple a b))
-        (and (is_obj_ty a) (is_obj_ty b) (ty_eq_obj a b))
+        (and (is_list_ty a) (is_list_ty b) (ty_eqF f (elem_ty a) (elem_ty b)))
+        (and (is_map_ty a) (is_map_ty b) (ty_eqF f (elem_ty a) (elem_ty b)))
+        (and (is_set_ty a) (is_set_ty b) (ty_eqF f (elem_ty a) (elem_ty b)))
+        (and (is_tuple_ty a) (is_tuple_ty b) (ty_eq_tuple f a b))
+        (and (is_obj_ty a) (is_obj_ty b) (ty_eq_obj f a b))
         (and (is_capsule_ty a) (is_capsule_ty b) (= (ti a) (ti b)))
         (= a b)))
-  :pattern ((ty_eq a b)))))
+  :pattern ((ty_eqF (FS f) a b)))))
 ; representation invariant of a type (what the constructors establish)
-(declare-fun wf_ty (cty.Type) Bool)
-(define-fun wf_ty_obj ((t cty.Type)) Bool
+(declare-fun wf_tyF (Fuel cty.Type) Bool)
+(define-fun wf_ty ((t cty.Type)) Bool (wf_tyF (FS (FS FZ)) t))
+(assert (forall ((f Fuel) (t cty.Type)) (! (= (wf_tyF (FS f) t) (wf_tyF f t)) :pattern ((wf_tyF (FS f) t)))))
+(define-fun wf_ty_obj ((f Fuel) (t cty.Type)) Bool
   (and (MapC<String~cty.Type>.ok (obj_atys t))
        (MapC<String~Unit>.ok (select F.MapC<String~Unit> (obj_opt_ptr t)))
        (not (= (obj_atys_ptr t) 0))
        (forall ((k String)) (! (=> (select (obj_opt t) k) (select (obj_dom t) k)) :pattern ((select (obj_opt t) k))))
-       (forall ((k String)) (! (=> (select (obj_dom t) k) (wf_ty (obj_aty t k))) :pattern ((select (obj_dom t) k))))))
-(define-fun wf_ty_tuple ((t cty.Type)) Bool
+       (forall ((k String)) (! (=> (select (obj_dom t) k) (wf_tyF f (obj_aty t k))) :pattern ((select (obj_dom t) k))))))
+(define-fun wf_ty_tuple ((f Fuel) (t cty.Type)) Bool
   (and (slice.ok (tuple_sl t))
-       (forall ((j Int)) (! (=> (and (<= (tuple_off t) j) (< j (+ (tuple_off t) (tuple_len t)))) (wf_ty (select (tuple_arr t) j)))
+       (forall ((j Int)) (! (=> (and (<= (tuple_off t) j) (< j (+ (tuple_off t) (tuple_len t)))) (wf_tyF f (select (tuple_arr t) j)))
                            :pattern ((select (tuple_arr t) j))))))
-(assert (forall ((t cty.Type)) (! (= (wf_ty t)
+(assert (forall ((f Fuel) (t cty.Type)) (! (= (wf_tyF (FS f) t)
     (or (is_prim_ty t) (is_dyn_ty t)
-        (and (is_coll_ty t) (wf_ty (elem_ty t)))
-        (and (is_tuple_ty t) (wf_ty_tuple t))
-        (and (is_obj_ty t) (wf_ty_obj t))
+        (and (is_coll_ty t) (wf_tyF f (elem_ty t)))
+        (and (is_tuple_ty t) (wf_ty_tuple f t))
+        (and (is_obj_ty t) (wf_ty_obj f t))
         (and (is_capsule_ty t) (not (= (unbox<*cty.capsuleType> (ti t)) 0)))))
-  :pattern ((wf_ty t)))))
+  :pattern ((wf_tyF (FS f) t)))))
+; ---- strings: NFC normalization is an uninterpreted idempotent function ------------------------
+(declare-fun nfc (String) String)
+(assert (forall ((s String)) (! (= (nfc (nfc s)) (nfc s)) :pattern ((nfc s)))))
+(assert (= (nfc "") ""))
+
+; Conformance of a type to a type constraint (C07): equal, disregarding optional-attribute
+; annotations, after replacing each dynamic placeholder of the constraint by the corresponding part.
+(declare-fun conformsF (Fuel cty.Type cty.Type) Bool)
+(define-fun conforms ((g cty.Type) (w cty.Type)) Bool (conformsF (FS (FS FZ)) g w))
+(assert (forall ((f Fuel) (g cty.Type) (w cty.Type)) (! (= (conformsF (FS f) g w) (conformsF f g w)) :pattern ((conformsF (FS f) g w)))))
+(define-fun conforms_tuple ((f Fuel) (g cty.Type) (w cty.Type)) Bool
+  (and (= (tuple_len g) (tuple_len w))
+       (forall ((j Int)) (! (=> (and (<= (tuple_off w) j) (< j (+ (tuple_off w) (tuple_len w))))
+                              (conformsF f (select (tuple_arr g) (+ (- j (tuple_off w)) (tuple_off g))) (select (tuple_arr w) j)))
+                           :pattern ((select (tuple_arr w) j))))))
+(define-fun conforms_obj ((f Fuel) (g cty.Type) (w cty.Type)) Bool
+  (and (= (obj_dom g) (obj_dom w))
+       (forall ((k String)) (! (=> (select (obj_dom w) k) (conformsF f (obj_aty g k) (obj_aty w k)))
+                           :pattern ((select (obj_dom w) k))))))
+(assert (forall ((f Fuel) (g cty.Type) (w cty.Type)) (! (= (conformsF (FS f) g w)
+    (or (is_dyn_ty w)
+        (ty_eq g w)
+        (and (is_obj_ty g) (is_obj_ty w) (conforms_obj f g w))
+        (and (is_tuple_ty g) (is_tuple_ty w) (conforms_tuple f g w))
+        (and (is_list_ty g) (is_list_ty w) (conformsF f (elem_ty g) (elem_ty w)))
+        (and (is_map_ty g) (is_map_ty w) (conformsF f (elem_ty g) (elem_ty w)))
+        (and (is_set_ty g) (is_set_ty w) (conformsF f (elem_ty g) (elem_ty w)))))
+  :pattern ((conformsF (FS f) g w)))))
+
+; "has dynamic types": a placeholder occurs somewhere inside (C07)
+(declare-fun has_dynF (Fuel cty.Type) Bool)
+(define-fun has_dyn ((t cty.Type)) Bool (has_dynF (FS (FS FZ)) t))
+(assert (forall ((f Fuel) (t cty.Type)) (! (= (has_dynF (FS f) t) (has_dynF f t)) :pattern ((has_dynF (FS f) t)))))
+(assert (forall ((f Fuel) (t cty.Type)) (! (= (has_dynF (FS f) t)
+    (or (is_dyn_ty t)
+        (and (is_coll_ty t) (has_dynF f (elem_ty t)))
+        (and (is_tuple_ty t) (exists ((j Int)) (! (and (<= (tuple_off t) j) (< j (+ (tuple_off t) (tuple_len t))) (has_dynF f (select (tuple_arr t) j)))
+                                                 :pattern ((select (tuple_arr t) j)))))
+        (and (is_obj_ty t) (exists ((k String)) (! (and (select (obj_dom t) k) (has_dynF f (obj_aty t k))) :pattern ((select (obj_dom t) k)))))))
+  :pattern ((has_dynF (FS f) t)))))
